@@ -135,6 +135,8 @@ def run(ctx):
     regen.gen_enums()
     regen.gen_g711()
     vlib.proof_step(ctx)
+    import dpcmtie
+    dpcmtie.run(ctx, 3000 if q else 60000)
     script, plan, dist = gen(ctx, q)
     ctx.distribution.update(dist)
     # model side: for the sample-granular encodings the model predicts the stored codes of every written file
@@ -176,4 +178,4 @@ def run(ctx):
     ctx.add_samples([hl[ln][2][:200] for (ln, k, a) in plan[:400:80] if ln in hl])
     ctx.trusted += ["PcmConv.v / Endian.v (tied by C02 / C20 and the stored-codes correspondence of this run)",
                     "Stream.v: the block writers / readers of sds.c, paf.c, alac.c, dwvw.c are abstract (enc, dec with dec (enc b) = b); their concrete codecs "
-                    "(ALAC compression, DWVW delta code, DPCM) are decided by the round-trip oracle on the implementation, not by a theorem"]
+                    "(ALAC compression, DWVW delta code) are decided by the round-trip oracle on the implementation, not by a theorem"]
